@@ -124,9 +124,47 @@ fn ctl(a: &[String]) -> ! {
     std::process::exit(0)
 }
 
+/// `conv <to_owned|from_owned> <Pid|Port|Reference>`: a node-local identifier, decoded from the wire, must be re-emitted byte for byte
+/// after the owned -> zero-copy -> owned conversion (exit 101 = it is not).
+fn conv(a: &[String]) -> ! {
+    let mut bytes: Vec<u8> = vec![131, 121, 0xde, 0xad, 0xbe, 0xef, 1, 2, 3, 4];
+    let node: [u8; 4] = [119, 1, b'n', 0];
+    match a[3].as_str() {
+        "Pid" => {
+            bytes.push(88);
+            bytes.extend_from_slice(&node[..3]);
+            bytes.extend_from_slice(&[0, 0, 0, 7, 0, 0, 0, 9, 0, 0, 0, 3]);
+        }
+        "Port" => {
+            bytes.push(120);
+            bytes.extend_from_slice(&node[..3]);
+            bytes.extend_from_slice(&[0, 0, 0, 0, 0, 0, 0, 7, 0, 0, 0, 3]);
+        }
+        _ => {
+            bytes.push(90);
+            bytes.extend_from_slice(&[0, 1]);
+            bytes.extend_from_slice(&node[..3]);
+            bytes.extend_from_slice(&[0, 0, 0, 3, 0, 0, 0, 7]);
+        }
+    }
+    let t = erltf::decode(&bytes).expect("decodes");
+    let b = erltf::BorrowedTerm::from(&t);
+    let o = b.to_owned();
+    let out = erltf::encode(&o).expect("encodes");
+    if out != bytes {
+        eprintln!("REPLAY: {} {} re-emitted {:?} instead of {:?}", a[2], a[3], out, bytes);
+        std::process::exit(101);
+    }
+    println!("REPLAY: {} {} re-emitted byte for byte", a[2], a[3]);
+    std::process::exit(0)
+}
+
 fn main() {
     let a: Vec<String> = std::env::args().collect();
     let kind = a[1].as_str();
+    if kind == "conv" {
+        conv(&a);
+    }
     if kind == "wrapper" {
         wrapper(&a);
     }
